@@ -18,6 +18,7 @@ CONSTANTS MaxTokens,     \* tokens before "end"
           MaxTop,        \* tokens outside the root element and outside the DTD
           MaxDtd,        \* declarations in the internal subset
           Wide,          \* TRUE: the larger alphabet
+          Prefix,        \* "none" | "dtd": start from the empty document or after a fixed rich DTD
           MaxTrunc,      \* truncation (End as a bad action) only after <= MaxTrunc tokens
           NStylesGood, NStylesBad,
           NLexStyles     \* styles whose rendering is read back by the scanner XmlLex (0 = off)
@@ -129,6 +130,12 @@ CDCtl == [k |-> "cdata", v |-> <<120, 11>>]
 EC1 == [k |-> "entity", n |-> <<99, 49>>, v |-> <<EI(<<99, 50>>)>>]
 EC2 == [k |-> "entity", n |-> <<99, 50>>, v |-> <<CI(120), EI(<<99, 49>>)>>]
 TCyc == [k |-> "text", items |-> <<EI(<<99, 49>>)>>]
+SUnp == [k |-> "stag", n |-> Na, lex |-> "ok", attrs |-> <<[n |-> Nx, v |-> <<CI(49), EI(Nu)>>]>>]
+SCyc == [k |-> "stag", n |-> Na, lex |-> "ok", attrs |-> <<[n |-> Nx, v |-> <<EI(<<99, 50>>)>>]>>]
+
+\* a fixed rich internal subset, so that the bounded writer also reaches every entity / ATTLIST
+\* feature combination in content within a few more tokens (Prefix = "dtd")
+DtdPrefix == <<DT2, E1, E2, UE, NO, EC1, EC2, AL1, AL3, DE>>
 
 XmlDecls == IF Wide THEN {X1, X2, X3} ELSE {X1, X2}
 Miscs    == IF Wide THEN {COM, COM0, PI1, PI0, WS} ELSE {COM, PI1, WS}
@@ -141,7 +148,7 @@ Inner    == IF Wide THEN {COM, PI1, PI0} ELSE {COM, PI1}
 
 BadContent == {SDup, SUnq, SNosp, SLt, SAmp, S2col, SDig, SRef0, SUnd, TCtl, TFffe, TRef0, TRef1, TRefS,
                TRefF, TRefB, TLt, TAmp, TAmp2, TCde, TUnd, TUnp, CDash, CDas2, PIxml, CDCtl, X1, DT1, E1}
-               \cup (IF Wide THEN {TCyc} ELSE {})
+               \cup (IF Wide \/ Prefix = "dtd" THEN {TCyc, SUnp, SCyc} ELSE {})
 BadTop     == {T1, T3, CD, CDash, PIxml, X1, E1, DE, SDig, S2col, SDup}
 BadDtd     == {SA, T1, CDash, PIxml, DT1, X1}
 
@@ -171,7 +178,9 @@ BadCands ==
     [] st.phase = "epilog" -> BadTop \cup {SA, ET(Na)}
     [] OTHER -> {}
 
-Init == st = InitState /\ toks = <<>> /\ nbad = 0
+Init == /\ toks = (IF Prefix = "dtd" THEN DtdPrefix ELSE <<>>)
+        /\ st = Fold(InitState, toks)
+        /\ nbad = 0
 
 StepWith(tok, v) ==
   /\ st' = (LET st1 == Apply(st, tok)
